@@ -160,7 +160,7 @@ def main(tier, n=None):
     rep.assumptions = ["args/options values are shell-inert tokens, so bash word splitting is the identity and the documented textual concatenation is observable as argv",
                        "expected dependency directory of an experiment = the COND_OUT its own probe saw in this invocation, else what `cond where` printed before the invocation"]
     rng = common.rng_for("c07", common.base_seed())
-    total = n or (120 if tier == "quick" else 2500)
+    total = n or (400 if tier == "quick" else 4000)
     cases = [gen_case(rng) for _ in range(total)]
     cli.warm()
     res = common.parallel_map(eval_case, cases, timeout=600)
